@@ -90,6 +90,14 @@ class C17bModels:
             raise Unsupported("ConsistencyConstraint for a formulation that is no heap object")
         ex.assumed.add("MDO functions as values: ConsistencyConstraint(couplings, formulation) is the value consistency(couplings, formulation) "
                        "(what ConsistencyConstraint.__init__ establishes: contract ConsistencyInit)")
+        from . import contract as C
+
+        ct = C.lookup(CCLS + ".__init__")
+        if ct is not None and hasattr(ct, "construction_requires"):
+            # the constructor's precondition on its arguments is checked where the constraint is constructed
+            c0 = C.Ctx(ex.st, ex.st.heap, ex.st.heap, {"output_couplings": oc, "formulation": form})
+            for label, f in ex._spec(ct.construction_requires, c0):
+                ex.check(f, "pre", f"ConsistencyConstraint.__init__:{label}", lineno, aux=True)
         return SV(MdoFun.consistency(NAME_LIST.embed(ex.st, oc), z3.IntVal(form.id)), TMdoFun)
 
     def value_attr(self, ex, obj, attr, lineno):
@@ -263,3 +271,87 @@ class C17bInitModels:
         ex.assumed.add("model of MDAFactory.create(name, disciplines, settings_model=...): a new MDA with an arbitrary coupling structure and input grammar "
                        "(the couplings of an MDA are those of its disciplines: C08), no effect on the formulation")
         return ref
+
+
+# ---------------------------------------------------------------------- ConsistencyConstraint.__init__: captured collaborators
+class _TRaw(T):
+    """A field holding any engine-level value (bound method, object reference, None...): None at entry, stored as it is."""
+
+    name = "Raw"
+
+    def fresh(self, st, hint):
+        return None
+
+    def sort(self):
+        raise Unsupported("raw values cannot be stored in symbolic containers")
+
+
+TRaw = _TRaw()
+
+
+class C17bCaptureModels:
+    """Gated on ``c17b_capture = {class qualname: schema key}`` of the verified contract: the constructor call of such a class allocates an
+    opaque new object (fresh fields of the schema) that remembers its constructor arguments (field ``c17_ctor`` = (args, kwargs)); the
+    constructor body is not executed (assumed, listed in the evidence)."""
+
+    def construct(self, ex, cv, args, kwargs, lineno):
+        cap = getattr(ex.contract, "c17b_capture", None)
+        if not cap or cv.qualname not in cap:
+            return NotImplemented
+        from . import contract as C
+
+        key = cap[cv.qualname]
+        o = PyObj(cv.qualname, {})
+        o.schema_key = key
+        ref = ex.st.alloc(o)
+        for f, t in C.class_schema(key).items():
+            o.fields[f] = t.fresh(ex.st, f"new.{f}")
+        o.fields["c17_ctor"] = (tuple(args), tuple(sorted(kwargs.items(), key=lambda kv: kv[0])))
+        ex.assumed.add(f"captured construction of {cv.qualname}(...): a new object with arbitrary attributes that remembers its constructor arguments; "
+                       "the constructor body is not executed")
+        return ref
+
+    def coerce(self, ex, v, t):
+        if t is TRaw or isinstance(t, _TRaw):
+            return v
+        return NotImplemented
+
+
+# ---------------------------------------------------------------------- numpy: a[r0:r1, c0:c1] = M
+class C17bNumpyModels:
+    """Gated on ``c17b_np = True`` contracts (precise numpy model).
+
+    ``a[r0:r1, c0:c1] = M`` for a rank-2 array ``a`` and a rank-2 value ``M``: numpy clips the two slices to the array (npmodel._slice_bounds),
+    requires each dimension of ``M`` to be the one of the selected block or 1 (broadcast; ValueError otherwise) and overwrites the block
+    element-wise, ``a[r0 + i, c0 + j] = M[i, j]``; everything else is unchanged."""
+
+    def setitem(self, ex, cont, key, v, lineno):
+        if not getattr(ex.contract, "c17b_np", False):
+            return NotImplemented
+        from .engine import PyRaise
+        from .npmodel import NumpyModel, _arr, _conv, _is_arr
+
+        if not (_is_arr(ex, cont) and _is_arr(ex, v) and isinstance(key, tuple) and len(key) == 2):
+            return NotImplemented
+        A, M = _arr(ex, cont), _arr(ex, v)
+        if A.rank != 2 or M.rank != 2 or not all(isinstance(k, tuple) and k and k[0] == "slice" for k in key):
+            return NotImplemented
+        np_ = NumpyModel()
+        if any(np_._is_full(k) for k in key):
+            return NotImplemented
+        (r0, nr), (c0, nc) = np_._slice_bounds(ex, key[0], A.shape[0]), np_._slice_bounds(ex, key[1], A.shape[1])
+        unit = []
+        for have, want in ((M.shape[0], nr), (M.shape[1], nc)):
+            if np_.same(ex, have, want, lineno):
+                unit.append(False)
+            elif ex.st.decide(have == 1):
+                unit.append(True)  # numpy broadcasting: a unit dimension of the value is repeated along the block
+            else:
+                raise PyRaise("ValueError", lineno)
+        old, k, mk = A.elems, A.kind, M.kind
+        i, j = z3.Int("i!np0"), z3.Int("i!np1")
+        inside = z3.And(i >= r0, i < r0 + nr, j >= c0, j < c0 + nc)
+        src = M.at(z3.IntVal(0) if unit[0] else i - r0, z3.IntVal(0) if unit[1] else j - c0)
+        A.elems = z3.Lambda([i, j], z3.If(inside, _conv(src, mk, k), z3.Select(old, i, j)))
+        ex.writeback(A)
+        return True
